@@ -10,12 +10,14 @@ import CfrVerif.Proofs.LocksWide
 import CfrVerif.Proofs.LocksPerm
 import CfrVerif.Proofs.LocksVanilla
 import CfrVerif.Proofs.LocksVanillaPerm
+import CfrVerif.Proofs.LocksVanillaRun
 --! audit CfrVerif/Proofs/Locks.lean
 --! audit CfrVerif/Proofs/LocksCheck.lean
 --! audit CfrVerif/Proofs/LocksWide.lean
 --! audit CfrVerif/Proofs/LocksPerm.lean
 --! audit CfrVerif/Proofs/LocksVanilla.lean
 --! audit CfrVerif/Proofs/LocksVanillaPerm.lean
+--! audit CfrVerif/Proofs/LocksVanillaRun.lean
 /-!
 # C05 — every solve returns a well-formed strategy profile and never panics
 
@@ -47,7 +49,7 @@ overflow and NaN are outside the theorem and are sampled by the correspondence r
   it: `Model/LocksVanilla.lean` has their traces (`vtrace`), `vanilla_pool_never_deadlocks` the same
   four statements for every split of the tree into tasks, `vtrace_draws_eq_vrec` that the trace is
   that of the traversal `vrec`, `vtrace_acqCount` that an infoset's mutex is taken once per visited
-  node of the infoset, and `vanilla_multi_locks_eq_visits` that the frontier's tasks and the closing
+  node of the infoset, and `vanilla_multi_locks_eq_visits` (for accepted games and reachable states: `…_run`) that the frontier's tasks and the closing
   recursion together take it exactly that often, for every task target (this count is compared
   with the crate's lock log on every short multi-threaded run).
 -/
